@@ -275,6 +275,18 @@ class SchedModel:
                 for it in n.items:
                     if it.context_expr is self.pool_ctor and isinstance(it.optional_vars, ast.Name):
                         self.pool_var = it.optional_vars.id
+        self.pool_kept_in = None
+        if self.pool_var is None:
+            # the new pool is stored into a container / an attribute (a cache of pools) and read back from it
+            for n in iter_own_nodes(f.node):
+                if isinstance(n, ast.Assign) and n.value is self.pool_ctor and isinstance(n.targets[0], (ast.Subscript, ast.Attribute)):
+                    self.pool_kept_in = n.targets[0]
+            if self.pool_kept_in is not None:
+                holder = norm_src(self.pool_kept_in.value)
+                for n in iter_own_nodes(f.node):
+                    if isinstance(n, ast.Assign) and isinstance(n.targets[0], ast.Name) and isinstance(n.value, (ast.Subscript, ast.Attribute)) \
+                            and norm_src(n.value.value) == holder:
+                        self.pool_var = n.targets[0].id
         if self.pool_var is None:
             raise Undecided("the pool is not bound to a local variable")
 
@@ -832,19 +844,34 @@ class SchedModel:
         return out
 
     # ------------------------------------------------------------------ pre-loop statements
-    def preloop_statements(self) -> List[ast.stmt]:
-        out = []
-        for s in self.fn.node.body:  # type: ignore[attr-defined]
-            if s is self.loop_stmt:
-                break
-            out.append(s)
-        else:
+    def _around_loop(self) -> Tuple[List[ast.stmt], List[ast.stmt]]:
+        """Statements executed before / after the loop on the normal path. The loop may sit inside `with` blocks or the body of a
+        `try` at the top level of the function (a pool managed by `with`, a release in `finally`): those are read through."""
+        def split(stmts: List[ast.stmt]) -> Optional[Tuple[List[ast.stmt], List[ast.stmt]]]:
+            for i, s in enumerate(stmts):
+                if s is self.loop_stmt:
+                    return list(stmts[:i]), list(stmts[i + 1:])
+                inner = None
+                if isinstance(s, (ast.With, ast.AsyncWith)):
+                    inner = split(s.body)
+                    tail: List[ast.stmt] = []
+                elif isinstance(s, ast.Try):
+                    inner = split(s.body)
+                    tail = list(s.orelse) + list(s.finalbody)
+                if inner is not None:
+                    return list(stmts[:i]) + inner[0], inner[1] + tail + list(stmts[i + 1:])
+            return None
+
+        res = split(self.fn.node.body)  # type: ignore[attr-defined]
+        if res is None:
             raise Undecided("scheduler loop is not a top-level statement of the scheduler function")
-        return out
+        return res
+
+    def preloop_statements(self) -> List[ast.stmt]:
+        return self._around_loop()[0]
 
     def postloop_statements(self) -> List[ast.stmt]:
-        body = self.fn.node.body  # type: ignore[attr-defined]
-        return body[body.index(self.loop_stmt) + 1:]
+        return self._around_loop()[1]
 
 
 def activation_functions(ctx: Ctx) -> Set[str]:
